@@ -1,0 +1,307 @@
+//! Verification seams. Compiled only with `--cfg qwt_verif`; the shipped crate does not contain this module.
+//!
+//! Everything here is inert until a harness arms it:
+//! - `rehash` / `permute_ties` put the two hash-map iteration orders of the Huffman builders behind a seam
+//!   (mode `Real` keeps whatever order the randomly seeded `HashMap` produced);
+//! - `buggify_offset` lets a harness make a prefetch position estimate arbitrarily wrong at the sink;
+//! - `sched_point` is a cooperative yield point for a controlled thread scheduler;
+//! - `probe` counts how often a branch of interest was reached.
+
+use std::borrow::Borrow;
+use std::cell::RefCell;
+use std::collections::HashMap;
+use std::sync::atomic::{AtomicUsize, Ordering};
+
+use minimum_redundancy::Frequencies;
+
+/// How an enumeration order of symbols is chosen.
+#[derive(Clone, Debug, PartialEq, Eq)]
+pub enum Order {
+    /// Leave the order the real (randomly seeded) hash map produced.
+    Real,
+    /// Increasing symbol value.
+    Canonical,
+    /// Decreasing symbol value.
+    Reverse,
+    /// Canonical order shuffled by a Fisher-Yates driven by this seed.
+    Seeded(u64),
+    /// Symbols appear in the order of this list; symbols not listed follow in canonical order.
+    Explicit(Vec<usize>),
+}
+
+#[derive(Clone, Debug)]
+struct TieState {
+    freqs_order: Order,   // H1: iteration order of the frequency map
+    lengths_order: Order, // H2: iteration order of the code-length map
+    last_freqs: Vec<usize>,
+    last_lengths: Vec<usize>,
+}
+
+thread_local! {
+    static TIES: RefCell<TieState> = RefCell::new(TieState {
+        freqs_order: Order::Canonical,
+        lengths_order: Order::Canonical,
+        last_freqs: Vec::new(),
+        last_lengths: Vec::new(),
+    });
+    static BUGGIFY: RefCell<Buggify> = RefCell::new(Buggify::default());
+    static PROBES: RefCell<[u64; N_PROBES]> = RefCell::new([0; N_PROBES]);
+}
+
+/// Sets the two enumeration orders used by the next constructions on this thread.
+pub fn set_orders(freqs: Order, lengths: Order) {
+    TIES.with(|t| {
+        let mut t = t.borrow_mut();
+        t.freqs_order = freqs;
+        t.lengths_order = lengths;
+    });
+}
+
+/// The orders (as explicit symbol lists) applied by the most recent construction on this thread.
+pub fn last_orders() -> (Vec<usize>, Vec<usize>) {
+    TIES.with(|t| {
+        let t = t.borrow();
+        (t.last_freqs.clone(), t.last_lengths.clone())
+    })
+}
+
+fn splitmix(state: &mut u64) -> u64 {
+    *state = state.wrapping_add(0x9E37_79B9_7F4A_7C15);
+    let mut z = *state;
+    z = (z ^ (z >> 30)).wrapping_mul(0xBF58_476D_1CE4_E5B9);
+    z = (z ^ (z >> 27)).wrapping_mul(0x94D0_49BB_1331_11EB);
+    z ^ (z >> 31)
+}
+
+fn apply_order<T>(items: &mut [T], key: impl Fn(&T) -> usize, order: &Order) {
+    match order {
+        Order::Real => {}
+        Order::Canonical => items.sort_by_key(|x| key(x)),
+        Order::Reverse => {
+            items.sort_by_key(|x| key(x));
+            items.reverse();
+        }
+        Order::Seeded(seed) => {
+            items.sort_by_key(|x| key(x));
+            let mut s = *seed;
+            for i in (1..items.len()).rev() {
+                let j = (splitmix(&mut s) % (i as u64 + 1)) as usize;
+                items.swap(i, j);
+            }
+        }
+        Order::Explicit(list) => {
+            let pos: HashMap<usize, usize> = list.iter().enumerate().map(|(i, &s)| (s, i)).collect();
+            items.sort_by_key(|x| {
+                let k = key(x);
+                (pos.get(&k).copied().unwrap_or(usize::MAX), k)
+            });
+        }
+    }
+}
+
+/// A frequency table that is enumerated in an order chosen by the harness instead of hash order.
+#[derive(Clone, Debug, Default)]
+pub struct OrderedFreqs<W> {
+    entries: Vec<(usize, W)>,
+}
+
+// `minimum_redundancy::Weight` is not nameable from outside its crate, so the two weight types the
+// builders use are spelled out.
+macro_rules! impl_ordered_freqs {
+    ($w:ty) => {
+        impl Frequencies for OrderedFreqs<$w> {
+            type Value = usize;
+            type Weight = $w;
+
+            fn occurrences_of(&mut self, value: &usize) -> $w {
+                self.entries
+                    .iter()
+                    .find(|(k, _)| k == value)
+                    .map_or(0, |(_, w)| *w)
+            }
+
+            fn add_occurrence_of(&mut self, value: usize) {
+                if let Some(e) = self.entries.iter_mut().find(|(k, _)| *k == value) {
+                    e.1 += 1;
+                } else {
+                    self.entries.push((value, 1));
+                }
+            }
+
+            fn number_of_occurring_values(&self) -> usize {
+                self.entries.len()
+            }
+
+            fn drain_frequencies(&mut self) -> impl Iterator<Item = (usize, $w)> {
+                std::mem::take(&mut self.entries).into_iter()
+            }
+
+            fn frequencies(&self) -> impl Iterator<Item = (usize, $w)> {
+                self.entries.iter().map(|(k, w)| (*k, *w))
+            }
+
+            fn occurrences(&self) -> impl Iterator<Item = $w> {
+                self.entries.iter().map(|(_, w)| *w)
+            }
+
+            fn without_occurrences() -> Self {
+                Self { entries: Vec::new() }
+            }
+        }
+    };
+}
+
+impl_ordered_freqs!(usize);
+impl_ordered_freqs!(u32);
+
+/// H1: takes the frequency map as the builder counted it and fixes its enumeration order.
+pub fn rehash<W: Copy, M: Borrow<HashMap<usize, W>>>(freqs: M) -> OrderedFreqs<W> {
+    let mut entries: Vec<(usize, W)> = freqs.borrow().iter().map(|(k, w)| (*k, *w)).collect();
+    TIES.with(|t| {
+        let mut t = t.borrow_mut();
+        let order = t.freqs_order.clone();
+        apply_order(&mut entries, |e| e.0, &order);
+        t.last_freqs = entries.iter().map(|e| e.0).collect();
+    });
+    OrderedFreqs { entries }
+}
+
+/// H2: fixes the order of the (symbol, code length) list before it is stably sorted by length.
+pub fn permute_ties<T>(items: &mut [T], key: impl Fn(&T) -> usize) {
+    TIES.with(|t| {
+        let mut t = t.borrow_mut();
+        let order = t.lengths_order.clone();
+        apply_order(items, &key, &order);
+        t.last_lengths = items.iter().map(|x| key(x)).collect();
+    });
+}
+
+/// What `buggify_offset` may do to a prefetch offset.
+#[derive(Clone, Debug, Default)]
+pub struct Buggify {
+    /// Probability of perturbing a call, in 1/65536 units (0 = never, 65536 = always).
+    pub prob: u32,
+    /// Bit mask of enabled perturbation kinds (bit k = kind k, see `BUGGIFY_KINDS`).
+    pub kinds: u32,
+    /// PRNG state; advanced only when `prob > 0`.
+    pub state: u64,
+    /// Calls seen while armed.
+    pub calls: u64,
+    /// Perturbations applied, per kind.
+    pub fired: [u64; BUGGIFY_KINDS.len()],
+}
+
+pub const BUGGIFY_KINDS: [&str; 8] = [
+    "zero",
+    "len",
+    "len_plus_1",
+    "plus_pow2",
+    "minus_pow2",
+    "usize_max",
+    "usize_max_div_16",
+    "random",
+];
+
+/// Arms (or, with `prob == 0`, disarms) the prefetch fault point on this thread.
+pub fn set_buggify(prob: u32, kinds: u32, seed: u64) {
+    BUGGIFY.with(|b| {
+        *b.borrow_mut() = Buggify {
+            prob,
+            kinds,
+            state: seed,
+            ..Buggify::default()
+        }
+    });
+}
+
+/// Returns and clears the counters of the prefetch fault point.
+pub fn take_buggify() -> Buggify {
+    BUGGIFY.with(|b| {
+        let mut b = b.borrow_mut();
+        let out = b.clone();
+        b.calls = 0;
+        b.fired = [0; BUGGIFY_KINDS.len()];
+        out
+    })
+}
+
+/// H3: the position estimate handed to the prefetch sink, possibly made arbitrarily wrong.
+#[inline]
+pub fn buggify_offset(offset: usize, len: usize) -> usize {
+    BUGGIFY.with(|b| {
+        let mut b = b.borrow_mut();
+        if b.prob == 0 || b.kinds == 0 {
+            return offset;
+        }
+        b.calls += 1;
+        let mut s = b.state;
+        let r = splitmix(&mut s);
+        b.state = s;
+        if (r & 0xFFFF) as u32 >= b.prob {
+            return offset;
+        }
+        let enabled: Vec<usize> = (0..BUGGIFY_KINDS.len()).filter(|k| b.kinds >> k & 1 == 1).collect();
+        let kind = enabled[((r >> 16) % enabled.len() as u64) as usize];
+        let k = ((r >> 32) % 64) as u32;
+        b.fired[kind] += 1;
+        match kind {
+            0 => 0,
+            1 => len,
+            2 => len.wrapping_add(1),
+            3 => offset.wrapping_add(1usize << k),
+            4 => offset.wrapping_sub(1usize << k),
+            5 => usize::MAX,
+            6 => usize::MAX / 16,
+            _ => splitmix(&mut s) as usize,
+        }
+    })
+}
+
+static SCHED_HOOK: AtomicUsize = AtomicUsize::new(0);
+
+/// Installs (or removes) the function called at every `sched_point`.
+pub fn set_sched_hook(hook: Option<fn()>) {
+    SCHED_HOOK.store(hook.map_or(0, |f| f as usize), Ordering::SeqCst);
+}
+
+/// H4: cooperative scheduling point inside query loops. A no-op unless a hook is installed.
+#[inline]
+pub fn sched_point() {
+    let p = SCHED_HOOK.load(Ordering::Relaxed);
+    if p != 0 {
+        // SAFETY: the only writer is `set_sched_hook`, which stores a valid `fn()` or 0.
+        let f: fn() = unsafe { std::mem::transmute::<usize, fn()>(p) };
+        f();
+    }
+}
+
+pub const N_PROBES: usize = 16;
+pub const PROBE_NAMES: [&str; N_PROBES] = [
+    "hqwt_get_leaf_above_last_level",
+    "hqwt_get_reached_last_level",
+    "hwt_get_leaf_above_last_level",
+    "hwt_get_reached_last_level",
+    "hqwt_build_symbol_finished_early",
+    "hwt_build_symbol_finished_early",
+    "pfs_estimate_loop_iteration",
+    "pfs_estimate_at_or_past_level_end",
+    "qv_select_second_line_of_block",
+    "rsq_select_block_sqrt_step",
+    "bv_positions_iter_word_exhausted_at_bit_63",
+    "bv_positions_iter_clipped_at_n_bits",
+    "darray_sparse_block",
+    "darray_dense_word_scan",
+    "wt_iter_front_met_back",
+    "reserved",
+];
+
+/// Counts a visit of a branch of interest (per thread).
+#[inline]
+pub fn probe(id: usize) {
+    PROBES.with(|p| p.borrow_mut()[id] += 1);
+}
+
+/// Returns and clears this thread's probe counters.
+pub fn take_probes() -> [u64; N_PROBES] {
+    PROBES.with(|p| std::mem::replace(&mut *p.borrow_mut(), [0; N_PROBES]))
+}
